@@ -52,7 +52,7 @@ reg(
     quick={"shards": 16, "timeout_s": 3000, "n_programs": 6, "n1": 400,
            "required_classes": ["C01.prog_with_vvdist", "C01.prog_with_vscan", "C01.prog_with_scanv", "C01.prog_with_condv", "C01.prog_with_vcond", "C01.prog_with_scan", "C01.prog_with_vmap", "C01.prog_with_cond", "C01.prog_with_call",
                                 "C01.prog_with_kwargs", "C01.prog_with_event", "C01.law_exact-pmf", "C01.law_pit"]},
-    thorough={"shards": 16, "timeout_s": 4 * 3600, "n_programs": 48, "n1": 1500,
+    thorough={"shards": 16, "timeout_s": 4 * 3600, "n_programs": 24, "n1": 1500,
               "required_classes": ["C01.prog_with_scan", "C01.prog_with_vmap", "C01.prog_with_cond", "C01.law_exact-pmf", "C01.law_pit"]},
 )
 
@@ -65,7 +65,7 @@ reg(
     quick={"shards": 16, "timeout_s": 3000, "n_cases": 7, "n1": 400,
            "required_classes": ["C02.subset_none", "C02.subset_all", "C02.subset_partial_inside_subcall",
                                 "C02.subset_whole_subcall_missing", "C02.prog_with_vvdist", "C02.prog_with_vscan", "C02.prog_with_scanv", "C02.prog_with_condv", "C02.prog_with_vcond", "C02.prog_with_scan", "C02.prog_with_vmap", "C02.prog_with_cond"]},
-    thorough={"shards": 16, "timeout_s": 4 * 3600, "n_cases": 56, "n1": 1500,
+    thorough={"shards": 16, "timeout_s": 4 * 3600, "n_cases": 28, "n1": 1500,
               "required_classes": ["C02.subset_none", "C02.subset_all", "C02.subset_partial_inside_subcall", "C02.subset_whole_subcall_missing"]},
 )
 
@@ -78,7 +78,7 @@ reg(
     quick={"shards": 16, "timeout_s": 3000, "n_cases": 12, "n_top": 3,
            "required_classes": ["C03.top_level_scan", "C03.top_level_vmap", "C03.flip", "C03.noflip", "C03.args_changed", "C03.args_same", "C03.constraints_some",
                                 "C03.constraints_none", "C03.prog_with_vvdist", "C03.prog_with_vscan", "C03.prog_with_scanv", "C03.prog_with_condv", "C03.prog_with_vcond", "C03.prog_with_scan", "C03.prog_with_vmap", "C03.prog_with_cond"]},
-    thorough={"shards": 16, "timeout_s": 4 * 3600, "n_cases": 96, "n_top": 24,
+    thorough={"shards": 16, "timeout_s": 4 * 3600, "n_cases": 48, "n_top": 12,
               "required_classes": ["C03.top_level_scan", "C03.flip", "C03.noflip", "C03.args_changed", "C03.constraints_some"]},
 )
 
@@ -92,7 +92,7 @@ reg(
     quick={"shards": 16, "timeout_s": 3000, "n_cases": 8, "n1": 400,
            "required_classes": ["C04.sel_none", "C04.sel_all", "C04.sel_proper", "C04.prog_with_scan", "C04.prog_with_vmap", "C04.prog_with_vvdist", "C04.prog_with_vscan", "C04.prog_with_scanv", "C04.prog_with_condv", "C04.prog_with_vcond",
                                 "C04.prog_with_cond", "C04.selection_reaches_into_subcall", "C04.sel_with_connective", "C04.args_changed"]},
-    thorough={"shards": 16, "timeout_s": 4 * 3600, "n_cases": 64, "n1": 1500,
+    thorough={"shards": 16, "timeout_s": 4 * 3600, "n_cases": 32, "n1": 1500,
               "required_classes": ["C04.sel_none", "C04.sel_all", "C04.sel_proper", "C04.prog_with_scan", "C04.prog_with_vmap"]},
 )
 
@@ -107,7 +107,7 @@ reg(
     quick={"shards": 16, "timeout_s": 3000, "n_histories": 6, "max_ops": 8, "n_nest": 2,
            "required_classes": ["C05.step_update", "C05.step_regenerate", "C05.step_mh", "C05.step_mala", "C05.step_hmc",
                                 "C05.step_jit", "C05.step_vector", "C05.pair_update>update"]},
-    thorough={"shards": 16, "timeout_s": 4 * 3600, "n_histories": 40, "max_ops": 12, "n_nest": 12,
+    thorough={"shards": 16, "timeout_s": 4 * 3600, "n_histories": 20, "max_ops": 12, "n_nest": 6,
               "required_classes": ["C05.step_update", "C05.step_regenerate", "C05.step_mh", "C05.step_mala", "C05.step_hmc", "C05.step_jit", "C05.step_vector"]},
 )
 
@@ -122,7 +122,7 @@ reg(
     quick={"shards": 16, "timeout_s": 3000, "n_cases": 40, "n_runs": 1500, "stat_every": 8,
            "required_classes": ["C12.systematic", "C12.categorical", "C12.w_degenerate", "C12.w_partly_neg_inf", "C12.w_near_uniform",
                                 "C12.w_wide_range", "C12.w_generic", "C12.w_mildly_uneven", "C12.N_1", "C12.N_large", "C12.offset_cells_probed", "C12.common_shift_down", "C12.common_shift_up"]},
-    thorough={"shards": 16, "timeout_s": 3 * 3600, "n_cases": 320, "n_runs": 6000, "stat_every": 4,
+    thorough={"shards": 16, "timeout_s": 3 * 3600, "n_cases": 160, "n_runs": 6000, "stat_every": 4,
               "required_classes": ["C12.systematic", "C12.categorical", "C12.w_degenerate", "C12.w_partly_neg_inf", "C12.N_1"]},
 )
 
@@ -141,7 +141,7 @@ reg(
     quick={"shards": 16, "timeout_s": 3000, "n_cases": 24, "n1": 4000, "stat_every": 3,
            "required_classes": ["C20.hmm", "C20.lg", "C20.hmm_sparse", "C20.hmm_T1", "C20.lg_nonsquare", "C20.lg_T1", "C20.lg_square", "C20.hmm_long",
                                 "C20.hmm_long_rare_symbol", "C20.hmm_long_T>=80", "C20.lg_long"]},
-    thorough={"shards": 16, "timeout_s": 3 * 3600, "n_cases": 200, "n1": 20000, "stat_every": 2,
+    thorough={"shards": 16, "timeout_s": 3 * 3600, "n_cases": 96, "n1": 20000, "stat_every": 2,
               "required_classes": ["C20.hmm", "C20.lg", "C20.hmm_sparse", "C20.hmm_T1", "C20.lg_nonsquare", "C20.lg_T1"]},
 )
 
@@ -160,7 +160,7 @@ reg(
            "required_classes": ["C13.dist_" + d for d in ["normal", "flip", "categorical", "exponential", "geometric", "multivariate_normal",
                                                           "bernoulli", "binomial", "negative_binomial", "gamma", "dirichlet", "multinomial", "zipf",
                                                           "tfp:Logistic", "custom:shifted_exponential"]] + ["C13.mode_" + m for m in ["sample_shape", "vmap_keys", "modular_vmap", "gen_site", "kwargs", "vmap_mapped_params", "vmap_mapped_kwargs", "vmap_mapped_params_ss"]] + ["C13.edge_of_domain", "C13.mvn_covariance_scale_small"]},
-    thorough={"shards": 16, "timeout_s": 3 * 3600, "n_cases": 96, "n1": 20000, "required_classes": ["C13.dist_normal", "C13.dist_geometric"]},
+    thorough={"shards": 16, "timeout_s": 3 * 3600, "n_cases": 48, "n1": 20000, "required_classes": ["C13.dist_normal", "C13.dist_geometric"]},
 )
 
 reg(
@@ -174,7 +174,7 @@ reg(
     quick={"shards": 16, "timeout_s": 3000, "n_cases": 40,
            "required_classes": ["C19.cfg_eager", "C19.cfg_jit", "C19.cfg_seed", "C19.save_under_ns+scan", "C19.save_under_scan+ns",
                                 "C19.save_under_scan+scan", "C19.save_under_vmap", "C19.save_under_scan"]},
-    thorough={"shards": 16, "timeout_s": 3 * 3600, "n_cases": 600, "required_classes": ["C19.cfg_eager", "C19.cfg_jit", "C19.cfg_seed", "C19.save_under_ns+scan"]},
+    thorough={"shards": 16, "timeout_s": 3 * 3600, "n_cases": 240, "required_classes": ["C19.cfg_eager", "C19.cfg_jit", "C19.cfg_seed", "C19.save_under_ns+scan"]},
 )
 
 reg(
@@ -206,7 +206,7 @@ reg(
            "required_classes": ["C07.site_under_scan", "C07.site_under_vmap", "C07.site_under_cond", "C07.site_under_gen",
                                 "C07.nest_scan>scan", "C07.nest_scan>vmap", "C07.nest_vmap>scan", "C07.nest_scan>cond", "C07.nest_vmap>site_ss", "C07.nesting_template",
                                 "C07.site_under_nseed"]},
-    thorough={"shards": 16, "timeout_s": 3 * 3600, "n_cases": 96, "n1": 16000,
+    thorough={"shards": 16, "timeout_s": 3 * 3600, "n_cases": 48, "n1": 16000,
               "required_classes": ["C07.nest_scan>scan", "C07.nest_scan>vmap", "C07.nest_vmap>scan", "C07.nest_scan>cond"]},
 )
 
@@ -226,7 +226,7 @@ reg(
            "required_classes": ["C06.mode_eager", "C06.mode_jit", "C06.mode_vmap_keys", "C06.mode_jit_vmap_keys", "C06.repeat_after_interference",
                                 "C06.prog_with_scan", "C06.prog_with_cond", "C06.prog_with_vmap", "C06.prog_with_gen", "C06.prog_with_nseed", "C06.prog_with_remat",
                                 "C06.same_key_other_argument_value_compared"]},
-    thorough={"shards": 16, "timeout_s": 3 * 3600, "n_histories": 64,
+    thorough={"shards": 16, "timeout_s": 3 * 3600, "n_histories": 32,
               "required_classes": ["C06.mode_eager", "C06.mode_jit", "C06.mode_vmap_keys", "C06.mode_jit_vmap_keys", "C06.repeat_after_interference"]},
 )
 
@@ -243,7 +243,7 @@ reg(
     quick={"shards": 16, "timeout_s": 3000, "n_cases": 30,
            "required_classes": ["C15.args_scalar", "C15.args_vector", "C15.args_matrix", "C15.args_dict", "C15.args_tuple_nested", "C15.op_cond",
                                 "C15.op_linalg", "C15.op_index", "C15.nondifferentiable_intermediate", "C15.cond_data", "C15.cond_const"]},
-    thorough={"shards": 16, "timeout_s": 3 * 3600, "n_cases": 600, "required_classes": ["C15.args_dict", "C15.op_cond", "C15.op_linalg"]},
+    thorough={"shards": 16, "timeout_s": 3 * 3600, "n_cases": 240, "required_classes": ["C15.args_dict", "C15.op_cond", "C15.op_linalg"]},
 )
 
 reg(
@@ -274,7 +274,7 @@ reg(
            "required_classes": ["C08.axis_other", "C08.axis_none", "C08.axis_0", "C08.feat_sample", "C08.feat_sample_shape", "C08.feat_logpdf",
                                 "C08.feat_inner_vmap", "C08.feat_scan", "C08.feat_cond", "C08.rank_mismatched_params", "C08.packing_dict_last",
                                 "C08.axis_size_inferred", "C08.B_equals_a_lane_dim", "C08.vmap_combinator", "C08.vmap_combinator_axis_none"]},
-    thorough={"shards": 16, "timeout_s": 4 * 3600, "n_cases": 110, "n_vmapgf": 24, "n1": 6000,
+    thorough={"shards": 16, "timeout_s": 4 * 3600, "n_cases": 56, "n_vmapgf": 12, "n1": 6000,
               "required_classes": ["C08.axis_other", "C08.feat_sample_shape", "C08.rank_mismatched_params", "C08.vmap_combinator"]},
 )
 
@@ -293,7 +293,7 @@ reg(
            "required_classes": ["C09.ir_mh", "C09.ir_mala", "C09.ir_hmc", "C09.selected_array_valued", "C09.selection_inside_subcall",
                                 "C09.threshold_checked", "C09.mixture_indicator", "C09.stationary_mh", "C09.stationary_mala", "C09.stationary_hmc", "C09.stationary_d2",
                                 "C09.stationary_steep_target"]},
-    thorough={"shards": 16, "timeout_s": 4 * 3600, "n_ir": 48, "n_fam": 24, "n1": 12000,
+    thorough={"shards": 16, "timeout_s": 4 * 3600, "n_ir": 24, "n_fam": 12, "n1": 12000,
               "required_classes": ["C09.ir_mh", "C09.ir_mala", "C09.ir_hmc", "C09.mixture_indicator", "C09.stationary_hmc"]},
 )
 
@@ -311,7 +311,7 @@ reg(
     quick={"shards": 16, "timeout_s": 3000, "n_cases": 6, "n1": 3000,
            "required_classes": ["C10.pipeline", "C10.rejuvenation_smc", "C10.family_D", "C10.family_G", "C10.proposal_custom", "C10.proposal_default",
                                 "C10.move_extend", "C10.move_resample_sys", "C10.move_resample_cat", "C10.move_rejuvenate", "C10.N_1", "C10.N_many", "C10.rsmc_with_kernel"]},
-    thorough={"shards": 16, "timeout_s": 4 * 3600, "n_cases": 48, "n1": 12000,
+    thorough={"shards": 16, "timeout_s": 4 * 3600, "n_cases": 24, "n1": 12000,
               "required_classes": ["C10.pipeline", "C10.rejuvenation_smc", "C10.family_D", "C10.family_G", "C10.proposal_custom", "C10.N_1"]},
 )
 
@@ -330,7 +330,7 @@ reg(
            "required_classes": ["C11.all_enum_exact", "C11.stochastic_calibrated", "C11.composition_of_different_estimator_kinds", "C11.param_depends_on_earlier_draw",
                                 "C11.site_flip_enum", "C11.site_flip_enum_parallel", "C11.site_categorical_enum_parallel", "C11.site_flip_mvd", "C11.site_flip_reinforce",
                                 "C11.site_normal_reparam", "C11.site_normal_reinforce", "C11.site_mvn_reparam", "C11.batched_bernoulli_site", "C11.mode_jit", "C11.mode_vmap_thetas", "C11.ret_cond"]},
-    thorough={"shards": 16, "timeout_s": 4 * 3600, "n_cases": 64, "n1": 24000,
+    thorough={"shards": 16, "timeout_s": 4 * 3600, "n_cases": 32, "n1": 24000,
               "required_classes": ["C11.all_enum_exact", "C11.stochastic_calibrated", "C11.composition_of_different_estimator_kinds"]},
 )
 
@@ -347,7 +347,7 @@ reg(
     quick={"shards": 16, "timeout_s": 3000, "n_cases": 5, "n1": 4000,
            "required_classes": ["C17.family_mean_field", "C17.family_full_cov", "C17.estimator_reparam", "C17.estimator_reinforce",
                                 "C17.posterior_tightness_checked", "C17.recursion_quadratic", "C17.recursion_enum", "C17.recursion_scale_10000", "C17.family_shared_mean"]},
-    thorough={"shards": 16, "timeout_s": 4 * 3600, "n_cases": 40, "n1": 16000,
+    thorough={"shards": 16, "timeout_s": 4 * 3600, "n_cases": 20, "n1": 16000,
               "required_classes": ["C17.family_mean_field", "C17.family_full_cov", "C17.posterior_tightness_checked", "C17.recursion_quadratic"]},
 )
 NOT_CLAIMED = {}
